@@ -62,6 +62,12 @@ def _spawn(args):
 
 
 def main(argv):
+    if argv and argv[0] == "sensitivity":
+        # every seeded breaking change under seeded/ is applied to a scratch copy of /repo and the quick
+        # check of its property must exit 1 (tools/reeval_seeded.py updates the meta.json files)
+        r = subprocess.run([sys.executable, os.path.join(VERIF, "tools", "reeval_seeded.py")] + argv[1:])
+        subprocess.run([sys.executable, os.path.join(VERIF, "tools", "seeded_summary.py")])
+        return r.returncode
     if not argv or argv[0] != "determinism":
         print(__doc__)
         return 2
